@@ -33,6 +33,8 @@ THEOREMS = [
     "Gwcs.Grid.product_length",
     "Gwcs.Grid.product_mem",
     "Gwcs.Grid.product_order_first",
+    "Gwcs.Grid.axis_type_spelling_irrelevant",
+    "Gwcs.Grid.temporal_alias",
 ]
 RULE = ("cases: (a) grid — 1..3-D boxes with integer/half/quarter limits (zero width, offset), positive scalar or per-axis dyadic steps, both "
         "centring options, wrong-length step tuples; (b) footprint — exact pipelines of 1..4 pixel axes with spatial/spectral/temporal/custom "
@@ -107,11 +109,12 @@ def impl(case):
         b = _bb_arg(case["bb"])
         # a 1-D box may be passed the way the WCS's own box is assigned: (start, stop)
         kw["bounding_box"] = b[0] if (len(b) == 1 and case.get("flat_bb")) else b
+    raw = {"types_raw": [str(t) for t in w.output_frame.axes_type], "axis_type_raw": kw["axis_type"]}
     try:
         r = np.asarray(w.footprint(**kw))
     except Exception as e:
-        return {"err": C.exc_enum(e)}
-    res = {"shape": list(r.shape), "vals": [_q(v) for v in r.ravel()]}
+        return dict(raw, err=C.exc_enum(e))
+    res = dict(raw, shape=list(r.shape), vals=[_q(v) for v in r.ravel()])
     # independent evaluation of the corners, for the oracle
     box = case["bb"] if case["bb"] is not None else case["own"]
     if box is not None:
@@ -244,8 +247,10 @@ def oracle(case, res):
 def request(case, res):
     if case["kind"] == "grid":
         return {"op": "grid", "bb": case["bb"], "step": case["step"], "center": case["center"]}
+    # the axis types as the frames report them and the requested type as it was spelled: the model does the case folding and the
+    # 'TIME' / 'temporal' alias itself
     return {"op": "footprint", "trs": [t for t in case["trs"] if t is not None], "bb": case["bb"], "own": case["own"], "center": case["center"],
-            "axes_type": case["axes_type"], "axis_type": case["axis_type"]}
+            "axes_type": res.get("types_raw", case["axes_type"]), "axis_type": res.get("axis_type_raw", case["axis_type"]), "raw": "types_raw" in res}
 
 
 def compare(case, res, resp):
